@@ -149,6 +149,17 @@ def main(tier, replay=None):
                                    {"d": "alias", "name": own, "t": {"k": "uint", "n": 7}}])
                 m3.insert(rng.choice([imps_[0], imps_[0] + 1]), item)
                 variants.append(("valid-aliased-import", b3, "the imported proto's own name is used by a %s" % item["d"], False))
+            # constant expressions whose operators are written without blanks: "TOTAL-2", "8 -1", "2*3/1"
+            b4 = _copy.deepcopy(base)
+            m4 = b4["files"][b4["main"]]
+            glue = rng.choice(["tight", "left", "right"])
+            ti = [i for i, x in enumerate(m4) if x["d"] == "message" and x["name"] == b4["top"]][0]
+            m4.insert(ti, {"d": "const", "name": "ZZ_TOTAL", "v": gen.lit(rng.choice([10, 64, 300]))})
+            m4.insert(ti + 1, {"d": "const", "name": "ZZ_BODY", "glue": glue, "v": {"e": "toks", "glue": glue, "toks": [
+                ["ref", ["ZZ_TOTAL"]], ["op", "-"], ["int", rng.choice([1, 2, 9])], ["op", rng.choice("+-*")], ["int", 1]]}})
+            m4.insert(ti + 2, {"d": "alias", "name": "ZzBody", "t": {"k": "array", "elem": {"k": "bool"},
+                                                                    "cap": {"e": "ref", "path": ["ZZ_BODY"]}, "ext": False}})
+            variants.append(("valid-unspaced-expression", b4, "operators written %s" % glue, False))
             rules = rng.sample(inject.CATALOGUE, per)
             for rule in rules:
                 got = inject.inject(base, rule, rng)
